@@ -387,3 +387,85 @@ func (ex *extractor) writeTemplates(sb *strings.Builder) error {
 	sb.WriteString("]\n\n")
 	return nil
 }
+
+// ---- parser.go tabularExpr: the switch on the operator keyword
+
+// operatorKeywords: (keyword, parsing method, node type the method returns), in source order
+func (ex *extractor) operatorKeywords(sb *strings.Builder) error {
+	fd := ex.funcDecl("parser", "*parser", "tabularExpr")
+	if fd == nil {
+		return fmt.Errorf("tabularExpr not found")
+	}
+	var sw *ast.SwitchStmt
+	ast.Inspect(fd, func(n ast.Node) bool {
+		if s, ok := n.(*ast.SwitchStmt); ok && sw == nil && s.Tag != nil && ex.src(s.Tag) == "operatorName.Value" {
+			sw = s
+		}
+		return true
+	})
+	if sw == nil {
+		return fmt.Errorf("tabularExpr: no switch on operatorName.Value")
+	}
+	type row struct{ kw, method, node string }
+	var rows []row
+	hasDefault := false
+	for _, c := range sw.Body.List {
+		cc := c.(*ast.CaseClause)
+		if cc.List == nil {
+			hasDefault = true
+			// the default branch must report an error and not build an operator
+			if !strings.Contains(ex.src(cc), "unknown operator name") {
+				return fmt.Errorf("tabularExpr: default branch does not report an unknown operator")
+			}
+			continue
+		}
+		// op, err := opParser.<method>(pipeToken, operatorName)
+		if len(cc.Body) == 0 {
+			return fmt.Errorf("tabularExpr: empty case")
+		}
+		as, ok := cc.Body[0].(*ast.AssignStmt)
+		if !ok || len(as.Rhs) != 1 {
+			return fmt.Errorf("tabularExpr: case does not start with a method call")
+		}
+		call, ok := as.Rhs[0].(*ast.CallExpr)
+		if !ok || len(call.Args) != 2 || ex.src(call.Args[0]) != "pipeToken" || ex.src(call.Args[1]) != "operatorName" {
+			return fmt.Errorf("tabularExpr: unexpected call shape %s", ex.src(as))
+		}
+		sel, ok := call.Fun.(*ast.SelectorExpr)
+		if !ok || ex.src(sel.X) != "opParser" {
+			return fmt.Errorf("tabularExpr: call is not on opParser")
+		}
+		method := sel.Sel.Name
+		md := ex.funcDecl("parser", "*parser", method)
+		if md == nil || md.Type.Results == nil || len(md.Type.Results.List) != 2 {
+			return fmt.Errorf("tabularExpr: method %s not found or unexpected results", method)
+		}
+		star, ok := md.Type.Results.List[0].Type.(*ast.StarExpr)
+		if !ok {
+			return fmt.Errorf("method %s: first result is not a pointer", method)
+		}
+		node := selName(star.X)
+		for _, e := range cc.List {
+			lit, ok := e.(*ast.BasicLit)
+			if !ok || lit.Kind != token.STRING {
+				return fmt.Errorf("tabularExpr: case label is not a string")
+			}
+			kw, _ := strconv.Unquote(lit.Value)
+			rows = append(rows, row{kw, method, node})
+		}
+	}
+	if !hasDefault {
+		return fmt.Errorf("tabularExpr: switch has no default")
+	}
+	sb.WriteString("/-- parser/parser.go `tabularExpr`: operator keyword → (parsing method, node type it returns), in source order;\n")
+	sb.WriteString("    any other identifier after `|` is an error (\"unknown operator name\") -/\n")
+	sb.WriteString("def operatorKeywords : List (String × String × String) :=\n  [")
+	for i, r := range rows {
+		if i > 0 {
+			sb.WriteString(", ")
+		}
+		fmt.Fprintf(sb, "(%s, %s, %s)", leanStr(r.kw), leanStr(r.method), leanStr(r.node))
+	}
+	sb.WriteString("]\n\n")
+	return nil
+}
